@@ -42,6 +42,7 @@ theorem C18_none_document {c : WalkCfg} (h : c.toStdout = true) (excl : List Str
   cases exclRoot
   · cases inp with
     | missing n => rfl
+    | special n => rfl
     | file name content => exact C18_none_emitPage h ..
     | dir name listing => exact C18_none h ..
   · rfl
@@ -75,6 +76,7 @@ theorem C18_file_mode_silent_document {c : WalkCfg} (h : c.toStdout = false) (ex
   cases exclRoot
   · cases inp with
     | missing n => rfl
+    | special n => rfl
     | file name content => exact C18_file_mode_silent_emitPage h ..
     | dir name listing => exact C18_file_mode_silent h ..
   · rfl
@@ -216,5 +218,11 @@ example : ∀ r₁ r₂ : RunResult, r₁.error = none → r₂.error = none →
       r₁.stdout ++ ((((layoutOf exCfg exExcl [] exTree).filter WItem.isPage).map (WItem.write exCfg (lit "P"))).map
         (fun w => w.content ++ ['\n', '\n'])).flatten :=
   fun _ _ h₁ h₂ => (C18_stdout_eq_file ex_treeOk h₁ h₂ (by decide) ex_ok).2
+
+/-- a special file (socket, FIFO, device) and a path that does not exist write nothing and print nothing -/
+theorem C18_special_missing (c : WalkCfg) (excl : List Str → Bool → Bool) (exclRoot : Bool) (n : Str) (r : RunResult) :
+    (document c excl exclRoot (.special n) r).1 = r ∧ (document c excl exclRoot (.missing n) r).1 = r := by
+  unfold document
+  cases exclRoot <;> simp
 
 end Cminx
